@@ -1004,6 +1004,19 @@ for nm, x, need in [('BOOLVECTOR.RAND', 'boolvec', 'S0.int.len() >= 1 && S0.floa
     r = ROWS[nm]
     r.clauses.append(('{C15}bound.alloc', '(%s && S1.%s.len() == S0.%s.len() + 1) ==> top(S1.%s, 0).values@.len() <= 4' % (need, x, x, x)))
     r.props.append('C15')
+# "no program can make an item on the CODE or EXEC stack grow beyond the configured maximum number of points in a program":
+# an instruction that builds a new item from its operands must not create one with more points than max_points_in_program,
+# unless it is no bigger than an operand it was built from.  The limit is consulted nowhere in the repository: one known finding per instruction.
+_lim = 'S0.config.max_points_in_program as int'
+def add_points_bound(name, fired, result, operands):
+    alts = ' || '.join(['%s(%s) <= %s' % (PTS, result, _lim)] + ['%s(%s) <= %s(%s)' % (PTS, result, PTS, o) for o in operands])
+    ROWS[name].clauses.append(('{C15}bound.points', '(%s) ==> (%s)' % (fired, alts)))
+    if 'C15' not in ROWS[name].props: ROWS[name].props.append('C15')
+for _nm in ['CODE.LIST', 'CODE.APPEND', 'CODE.CONS', 'CODE.INSERT']:
+    add_points_bound(_nm, 'S0.code.len() >= 2' + (' && S0.int.len() >= 1' if _nm == 'CODE.INSERT' else ''), 'top(S1.code, 0)', ['top(S0.code, 0)', 'top(S0.code, 1)'])
+add_points_bound('CODE.SUBST', 'S0.code.len() >= 3', 'top(S1.code, 0)', ['top(S0.code, 0)', 'top(S0.code, 1)', 'top(S0.code, 2)'])
+add_points_bound('EXEC.S', 'S0.exec.len() >= 3', 'S1.exec[S0.exec.len() - 3]', [e0, e1, e2])
+add_points_bound('EXEC.Y', 'S0.exec.len() >= 1', 'top(S1.exec, 1)', [e0])
 # NEIGHBOR*: IDS pushes one element per neighbour (up to the size OPERAND): bounded by operand magnitude only -> known finding;
 # *VALS push one value per neighbour that addresses an existing CODE item: at most CODE-stack-depth many (the neighbourhood itself is still computed)
 ROWS['LIST.NEIGHBOR*IDS'].clauses.append(('{C15}bound.alloc', '(S0.int.len() >= 3 && S0.float.len() >= 1 && S1.intvec.len() == S0.intvec.len() + 1) ==> top(S1.intvec, 0).values@.len() <= 5'))
